@@ -467,6 +467,68 @@ def r6_shared_recognisers(ctx):
         for o in fn(ctx):
             yield o
 
+class _LoopM(object):
+    """a loop of the map as _is_loop_match sees it: its children in order, the first of them, usage, path"""
+    _sa_model = True
+
+    def __init__(self, name, children=(), first_matches=None):
+        self.id = self.name = name
+        self.kids = tuple(children)
+        self.usage = 'S'
+        self.x12path = name
+        self.first = A.Model(name + '.first', id=name + '1', matches=bool(first_matches), is_loop=lambda: False) if first_matches is not None else None
+
+    def is_loop(self):
+        return True
+
+    def __len__(self):
+        return len(self.kids) + (1 if self.first is not None else 0)
+
+    def get_first_node(self):
+        return self.first if self.first is not None else (self.kids[0] if self.kids else None)
+
+    def childIterator(self):
+        return ((self.first,) if self.first is not None else ()) + self.kids
+
+    def __repr__(self):
+        return self.name
+
+
+def r10_wrapper_loops(ctx):
+    """a loop that only wraps other loops (DETAIL, TABLE2AREA3 ...) matches a segment when ANY of its child loops does -
+    a document may start with the second kind of detail loop.  walk_tree._is_loop_match decided by constant
+    propagation (recursive calls answered the same way) on wrapper loops whose first, second or no child loop starts
+    with the segment, also two levels deep."""
+    from ..absint import run_function, NotClosedTest
+    fn = ctx.func('map_walker', 'walk_tree._is_loop_match')
+    g = ctx.cfg(fn)
+
+    def match(loop):
+        funcs = {'is_first_seg_match2': lambda first, seg: first.matches,
+                 'self._is_loop_match': lambda lp, *a_: match(lp),
+                 'self.counter.get_count': lambda p_: 1}
+        return run_function(g, fn, [None, loop, 'SEG', None, 1, 1, None], funcs)
+    cases = []
+    for pattern in ((True, False), (False, True), (False, False), (False, False, True), (True, True)):
+        kids = [_LoopM('L%d' % i, first_matches=m_) for i, m_ in enumerate(pattern)]
+        cases.append((_LoopM('W', kids), any(pattern), 'child loops starting with the segment: %s' % list(pattern)))
+    inner = _LoopM('W2', [_LoopM('X0', first_matches=False), _LoopM('X1', first_matches=True)])
+    cases.append((_LoopM('W', [_LoopM('Y0', first_matches=False), inner]), True, 'second child wraps loops, its second child starts with the segment'))
+    cases.append((_LoopM('E', []), False, 'empty loop'))
+    cases.append((_LoopM('P', first_matches=True), True, 'plain loop whose first segment matches'))
+    cases.append((_LoopM('P', first_matches=False), False, 'plain loop whose first segment does not match'))
+    bad = []
+    for loop, want, what in cases:
+        try:
+            got = match(loop)
+        except (NotClosedTest, A.NotClosed) as e:
+            raise AnalysisError('walk_tree._is_loop_match cannot be decided (%s): %s' % (what, e))
+        if bool(got) != want:
+            bad.append('%s: %s' % (what, 'matches' if got else 'does not match'))
+    yield Ob('map_walker:walk_tree._is_loop_match a wrapper loop matches when any child loop does', not bad, ctx.floc(fn),
+             '' if not bad else bad[0] + ' - a conformant document that starts with that loop is reported "segment not found"')
+
+
 def r9_shared_path_suffix(ctx):
     """the walker counts occurrences per node path: two different segments of one loop that share a path share a counter,
     and a conformant document with one of each is reported as exceeding the limit.  C16.R13 (shared): the loader's
@@ -555,6 +617,7 @@ RULES = [
     Rule('C02.R5', 'walker counting/ordering atoms: limits, resets, pending-missing conditions, position filter', r5_walker_wiring, floor=12),
     Rule('C02.R6', 'shared with C13.R1/R3/R4: the recognisers accept every value of the X12 value languages', r6_shared_recognisers, floor=33),
     Rule('C02.R7', 'the map-switch key (BHT02) is never carried from one transaction set to the next', r7_no_stale_map_key, floor=1),
+    Rule('C02.R10', '_is_loop_match: a wrapper loop matches iff any child loop matches (constant propagation, recursive)', r10_wrapper_loops, floor=1),
     Rule('C02.R9', 'shared with C16.R13: same-position segments get distinct counter paths (loader suffix code interpreted over the maps)', r9_shared_path_suffix, floor=100),
     Rule('C02.R8', 'shared with C01.R3/R5: no segment is damaged at a buffer boundary', r8_shared_tokenizer, floor=6),
 ]
